@@ -128,6 +128,8 @@ Q_DELAY2 = [Q("q_delay_twice_1_2_2_control"), Q("q_delay_twice_2_0_0_control"),
 PE_TWO = [H("pe_two_disconnects_one_poll", "sess_ep", timeout=900, mem=12, unwindset={"extend_with": 9})]
 PE_PERM = [H("pe_gossip_order_independent", "sess_perm", timeout=1200, mem=12, unwindset={"extend_with": 9})]
 VC_SELF = [H("vc_map_laws", "vcoll", mem=4), H("vc_btree_order", "vcoll", mem=4)]
+PC_REGISTER = [PC("pc_register_two_locals_lagging_first", unwindset={"drop_glue": 2, "verif_q": 9}),
+               PC("pc_register_two_locals_lagging_second", unwindset={"drop_glue": 2, "verif_q": 9})]
 PC_INPUT = [PC("pc_input_event")]
 PC_DISC = [PC("pc_disconnect_player_contract"), PC("pc_disconnected_event")]
 PC_EVENTS = [PC("pc_event_forwarding_and_cap"), PC("pc_wait_recommendation_respects_cap"), PC("pc_running_iff_all_synchronized")]
@@ -176,7 +178,7 @@ P("C09", U_CHECKSUM + PC_CHECKSUM,
 P("C10", PE_CUTOFF + S_MIN + PC_INPUT + PE_PERM,
   "Cut-off agreement kernel on the real update_player_disconnects with real endpoints: when a surviving peer gossips that a player is disconnected as of frame m and this peer holds its inputs up to L, this peer adopts min(L, m), schedules the resimulation from the next frame and does not re-arm it on the next tick.",
   "KNOWN FINDING F3: for m < L the unchanged tree keeps last_frame = L (see known_findings.json).")
-P("C11", Q_DELAY + Q_DELAY2 + Q_ADD + PC_DELAY,
+P("C11", Q_DELAY + Q_DELAY2 + Q_ADD + PC_DELAY + PC_REGISTER,
   "InputQueue delay change in steady state: the fills set_frame_delay announces are exactly the frames and values the queue stores when the next input is added (gapless, repeat-last); a decrease drops the next submission.",
   "Sequences of changes before the queue has drained are a known finding candidate (F4) not yet witnessed by a harness.")
 P("C12", U_HANDSHAKE + U_LIVENESS + U_NORESUME + U_TIMERS + U_CAP + PC_EVENTS,
@@ -187,7 +189,7 @@ P("C14", K_QUICK + K_THOROUGH, PROPERTIES["C14"]["claim"], PROPERTIES["C14"]["no
 P("C15", M_ALL + U_QUALITY + PC_WAIT,
   "Kernel only: TimeSync average (f32 bit-precise) within one frame of the true mean difference and within one of k in a steady k-frame lead; frame-advantage formula; quality report/reply bookkeeping (ping = now - echoed timestamp, what one side reports as local is the other's remote); network_stats error/values contract.",
   "The closed-loop settling claims need >= 30 frames of two live sessions: outside reach.", level="other")
-P("C17", U_HANDSHAKE + PE_TWO + PE_PERM + VC_SELF,
+P("C17", U_HANDSHAKE + PE_TWO + PE_PERM + PC_REGISTER + VC_SELF,
   "Handshake behaviour is the same function of message order for every value of the random nonces (nonces symbolic in the inductive step).",
   "Hash-order independence (solver-chosen permutations of map iteration) not yet built.")
 P("C18", U_CAP + U_CHECKSUM + U_STREAM_Q + Q_ADD + PC_EVENTS[:2],
